@@ -59,8 +59,11 @@ def obs_cmd(rng) -> tuple:
     return (k,)
 
 
-def one(rng):
-    nobs = rng.choice([0, 1, 1, 2])
+def one(rng, replace: bool = False):
+    """replace: after `a` has EXAMINEd INBOX another session renames INBOX away (the name INBOX
+    then denotes a new, empty mailbox) and delivers into the new one; whatever `a`'s selection is
+    bound to afterwards, no command issued in it may change that mailbox, which is read-write."""
+    nobs = rng.choice([1, 1, 2]) if replace else rng.choice([0, 1, 1, 2])
     sessions = ['a', 'b', 'c'][:1 + nobs]
     init = [rng.choice([(), ('\\Seen',), ('\\Deleted',), ('\\Deleted', '\\Seen')])
             for _ in range(rng.randint(2, 4))]
@@ -69,16 +72,10 @@ def one(rng):
     log = []
     try:
         # the backend-read-only mailbox, as pymap's demo data makes one
-        w = run.w
-        for _ in range(2):
-            w.cmd(sessions[0], b'APPEND RO {3+}\r\nx\r\n')
-        run.w.conns[sessions[0]].take()
-        run.parse_off[sessions[0]] = len(run.w.conns[sessions[0]].writer.out)
-        w.mailbox_set()._set['RO']._readonly = True
-        run._known_uids = run.store_uids()
-        target = rng.choice(['INBOX', 'INBOX', 'RO'])
+        run.make_readonly_box('RO', 2)
+        target = 'INBOX' if replace else rng.choice(['INBOX', 'INBOX', 'RO'])
         for s in sessions[1:]:
-            how = rng.choice(['select', 'examine'])
+            how = 'examine' if replace else rng.choice(['select', 'examine'])
             for cmd in ((how, target), ('fetch', False, '1:*', False)):
                 run.issue(s, cmd)
                 run.finish(s)
@@ -90,6 +87,12 @@ def one(rng):
             run.issue('a', cmd)
             run.finish('a')
             log.append(('cmd', 'a', cmd))
+        if replace:
+            for cmd in (('close',), ('rename', 'INBOX', 'Old'), ('append', 'INBOX', 2, ()),
+                        ('append', 'INBOX', 1, ('\\Deleted',))):
+                run.issue('b', cmd)
+                run.finish('b')
+                log.append(('cmd', 'b', cmd))
         run.dump(target, norw)
         run.dump('RO')
         ncmds = rng.randint(2, 6)
@@ -162,12 +165,14 @@ def main(tier: str) -> int:
         return run.finish()
     traces, meta = [], []
     n = 500 if tier == 'quick' else 6000
-    for _ in range(n):
-        sr, log = one(rng)
+    nrep = 60 if tier == 'quick' else 700
+    for k in range(n + nrep):
+        sr, log = one(rng, replace=k >= n)
         for e in sr.errors:
             run.notes.setdefault('harness_errors', []).append(e)
         traces.append(sr.events)
-        meta.append({'kind': 'ro-program', 'schedule': log})
+        meta.append({'recipe': sr.recipe, 'kind': 'ro-program-name-replaced' if k >= n else 'ro-program',
+                     'schedule': log})
     verdicts, vres = tlc.validate_total('Trace_RO.tla', 'Trace_RO.cfg', traces)
     if len(verdicts) != len(traces):
         run.machinery('trace validation incomplete: ' + (vres.error or vres.output[-800:]))
@@ -188,3 +193,29 @@ def main(tier: str) -> int:
     run.sample(meta[0])
     run.sample(meta[-1])
     return run.finish()
+
+
+def replay(path: str) -> int:
+    """Set the recorded execution up again, repeat every driver action and have TLC judge it."""
+    import json
+    from ..syncrun import run_recipe
+    rec = json.load(open(path))
+    recipe = (rec['replay'].get('meta') or {}).get('recipe')
+    if not recipe:
+        print('this replay file carries no recipe (written before replays of this check existed)')
+        return 2
+    sr = run_recipe(recipe)
+    for e in sr.errors:
+        print('note:', e)
+    verdicts, vres = tlc.validate_total('Trace_RO.tla', 'Trace_RO.cfg', [sr.events])
+    if len(verdicts) != 1:
+        print('trace validation incomplete: ' + (vres.error or vres.output[-800:]))
+        return 2
+    line, clause = verdicts[1]
+    for e in sr.events[max(0, (line or len(sr.events)) - 20):(line or len(sr.events))]:
+        print('  ', e)
+    if clause:
+        print(f'REPRODUCED: {clause} at event {line}: {sr.events[line - 1]}')
+        return 1
+    print(f'NOT REPRODUCED (recorded: {rec["replay"].get("clause")}; now: every clause holds)')
+    return 0
